@@ -663,3 +663,154 @@ Proof.
 Qed.
 
 End Gen.
+
+(* ------------------------------------------------------------------ the reloaded object compares equal:
+   every modelled PartialEq is reflexive on reachable objects as soon as the float comparison is
+   (true of the reals and of every non-NaN double) *)
+Section Eq.
+Context {T : Type} `{Num T}.
+Hypothesis neqb_refl : forall x : T, neqb x x = true.
+
+Lemma list_eqb_refl (l : list T) : list_eqb l l = true.
+Proof. induction l; cbn [list_eqb]; auto. rewrite neqb_refl. auto. Qed.
+Lemma mat_eqb_refl (m : list (list T)) : mat_eqb m m = true.
+Proof. induction m; cbn [mat_eqb]; auto. rewrite list_eqb_refl. auto. Qed.
+Lemma names_zip_all_refl' xs : names_zip_all xs xs = true.
+Proof. induction xs; cbn [names_zip_all]; auto. rewrite name_eqb_refl. auto. Qed.
+Lemma vars_cmp_refl xs : vars_cmp false xs xs = ValEq.
+Proof. unfold vars_cmp. rewrite Nat.eqb_refl, names_zip_all_refl'. reflexivity. Qed.
+Lemma deqb_refl (d : dual T) : deqb false d d = true.
+Proof. unfold deqb, align. rewrite neqb_refl, vars_cmp_refl. cbn [negb]. apply list_eqb_refl. Qed.
+Lemma d2eqb_refl (d : dual2 T) : d2eqb false d d = true.
+Proof.
+  unfold d2eqb, align2. rewrite neqb_refl, vars_cmp_refl. cbn [negb].
+  rewrite list_eqb_refl, mat_eqb_refl. reflexivity.
+Qed.
+Lemma vec_eqb_refl {A} (e : A -> A -> bool) l : (forall x, In x l -> e x x = true) -> vec_eqb e l l = true.
+Proof.
+  induction l as [|x l IH]; intros He; cbn [vec_eqb]; auto.
+  rewrite He by (left; auto). apply IH. intros; apply He; right; auto.
+Qed.
+Lemma zset_eqb_refl l : zset_eqb l l = true.
+Proof.
+  unfold zset_eqb. rewrite Nat.eqb_refl. apply forallb_forall. intros x Hx. apply zmem_in; auto.
+Qed.
+Lemma nset_eqb_refl l : nset_eqb l l = true.
+Proof.
+  unfold nset_eqb. rewrite Nat.eqb_refl. apply forallb_forall. intros x Hx. apply mem_in'; auto.
+Qed.
+Lemma im_get_in {V} (m : list (Z * V)) k v : NoDup (map fst m) -> In (k, v) m -> im_get k m = Some v.
+Proof.
+  induction m as [|[k' v'] m IH]; intros ND Hin; [destruct Hin|]. cbn [im_get].
+  cbn [map fst] in ND. inversion ND; subst. destruct Hin as [E|Hin].
+  - injection E as -> ->. rewrite Z.eqb_refl. reflexivity.
+  - destruct (Z.eqb_spec k k') as [->|]; [|auto].
+    exfalso. apply H2. apply in_map_iff. exists (k', v). auto.
+Qed.
+Lemma imap_eqb_refl {V} (e : V -> V -> bool) m : NoDup (map fst m) ->
+  (forall kv, In kv m -> e (snd kv) (snd kv) = true) -> imap_eqb e m m = true.
+Proof.
+  intros ND He. unfold imap_eqb. rewrite Nat.eqb_refl. apply forallb_forall. intros [k v] Hin.
+  cbn [fst snd]. rewrite (im_get_in m k v ND Hin). apply (He (k, v) Hin).
+Qed.
+Lemma ucal_eq_refl u : ucal_eq u u = true.
+Proof.
+  unfold ucal_eq, dr_eq. apply forallb_forall. intros d _. rewrite !Bool.eqb_reflx. reflexivity.
+Qed.
+Lemma opt_eqb_refl {A} (e : A -> A -> bool) o : (forall x, e x x = true) -> opt_eqb e o o = true.
+Proof. intros He. destruct o; cbn [opt_eqb]; auto. Qed.
+Lemma jdual2_eqb_refl (d : jdual2 T) : jdual2_eqb d d = true.
+Proof. apply d2eqb_refl. Qed.
+Lemma jnum_eqb_refl (x : jnumber T) : jnum_eqb x x = true.
+Proof. destruct x; cbn [jnum_eqb]; auto using deqb_refl, jdual2_eqb_refl. Qed.
+Lemma numarr_eqb_refl (a : numarr T) : numarr_eqb a a = true.
+Proof.
+  destruct a; cbn [numarr_eqb]; unfold mat_eqb_gen; apply vec_eqb_refl; intros r _; apply vec_eqb_refl; intros;
+    auto using deqb_refl, d2eqb_refl.
+Qed.
+
+Theorem obj_eqb_refl (o : obj T) : ok_obj o -> obj_eqb o o = true.
+Proof.
+  destruct o; cbn [ok_obj obj_eqb]; intros Ho.
+  - apply deqb_refl.
+  - apply jdual2_eqb_refl.
+  - unfold cal_eqb. rewrite !zset_eqb_refl. reflexivity.
+  - apply ucal_eq_refl.
+  - apply ucal_eq_refl.
+  - unfold fx_eqb. rewrite nset_eqb_refl, numarr_eqb_refl. rewrite vec_eqb_refl; auto.
+    intros r _. unfold fxrate_eqb. rewrite !name_eqb_refl, jnum_eqb_refl. cbn [andb].
+    apply opt_eqb_refl. apply Z.eqb_refl.
+  - destruct Ho as [Hn _]. unfold curve_eqb. rewrite !Nat.eqb_refl, name_eqb_refl.
+    rewrite (opt_eqb_refl neqb (cv_base c) neqb_refl).
+    assert (C : caltype_eqb (cv_cal c) (cv_cal c) = true).
+    { destruct (cv_cal c); cbn [caltype_eqb]; auto using ucal_eq_refl.
+      unfold cal_eqb. rewrite !zset_eqb_refl. reflexivity. }
+    rewrite C.
+    assert (N : nodes_eqb (cv_nodes c) (cv_nodes c) = true).
+    { destruct (cv_nodes c); cbn [nodes_eqb ok_nodes] in *; destruct Hn as [ND _]; apply imap_eqb_refl; auto;
+        intros; auto using deqb_refl, jdual2_eqb_refl. }
+    rewrite N. reflexivity.
+  - unfold spline_eqb. rewrite !Z.eqb_refl. cbn [negb orb].
+    rewrite (vec_eqb_refl neqb) by auto. cbn [negb]. destruct (sp_c s); auto. apply vec_eqb_refl; auto.
+  - unfold spline_eqb. rewrite !Z.eqb_refl. cbn [negb orb].
+    rewrite (vec_eqb_refl neqb) by auto. cbn [negb]. destruct (sp_c s); auto.
+    apply vec_eqb_refl; intros; apply deqb_refl.
+  - unfold spline_eqb. rewrite !Z.eqb_refl. cbn [negb orb].
+    rewrite (vec_eqb_refl neqb) by auto. cbn [negb]. destruct (sp_c s); auto.
+    apply vec_eqb_refl; intros; apply jdual2_eqb_refl.
+Qed.
+End Eq.
+
+(* ------------------------------------------------------------------ a market built by the constructor
+   is rebuilt identically from its own quotes and first currency *)
+Section FxReload.
+Context {T : Type} `{Num T}.
+Lemma dedup_aux_dup seen x l : dedup_aux seen (x :: x :: l) = dedup_aux seen (x :: l).
+Proof.
+  cbn [dedup_aux]. destruct (mem x seen) eqn:M; [reflexivity|].
+  assert (M2 : mem x (x :: seen) = true).
+  { unfold mem. cbn [index_of]. rewrite name_eqb_refl. reflexivity. }
+  rewrite M2. reflexivity.
+Qed.
+Lemma dedup_hd l : l <> [] -> hd [] (dedup l) = hd [] l.
+Proof. destruct l as [|x l]; [congruence|]. intros _. reflexivity. Qed.
+Lemma ccy_index_rebase (qs : list (fxrate T)) base : qs <> [] ->
+  ccy_index qs (Some (hd [] (ccy_index qs base))) = ccy_index qs base.
+Proof.
+  intros NE. unfold ccy_index. destruct base as [b|].
+  - rewrite dedup_hd by discriminate. reflexivity.
+  - destruct qs as [|q qs]; [congruence|]. cbn [app flat_map]. rewrite dedup_hd by discriminate.
+    cbn [hd app]. unfold dedup. apply dedup_aux_dup.
+Qed.
+End FxReload.
+
+(* ------------------------------------------------------------------ through text: the codec is an
+   interface (serde_json / ryu, or bincode); its single property is that parsing what was printed
+   gives the same tree when every float in it is finite *)
+Section Text.
+Context {T : Type} `{Num T}.
+Variable text : Type.
+Variable print : json T -> text.
+Variable parse : text -> outcome (json T).
+Variable finite : T -> Prop.
+
+Fixpoint json_finite (j : json T) : Prop :=
+  match j with
+  | JNum x => finite x
+  | JArr l => (fix go (l : list (json T)) := match l with [] => True | x :: r => json_finite x /\ go r end) l
+  | JObj kvs => (fix go (l : list (key * json T)) :=
+                   match l with [] => True | (_, v) :: r => json_finite v /\ go r end) kvs
+  | _ => True
+  end.
+Hypothesis codec : forall j, json_finite j -> parse (print j) = Ok j.
+
+Definition to_json_text (o : obj T) : text := print (enc_obj o).
+Definition from_json_text (s : text) : outcome (obj T) := do j <- parse s; from_json_model j.
+Definition finite_obj (o : obj T) : Prop := json_finite (enc_obj o).
+
+Theorem text_roundtrip o : ok_obj o -> finite_obj o -> from_json_text (to_json_text o) = Ok o.
+Proof.
+  intros Ho Hf. unfold from_json_text, to_json_text. rewrite codec by exact Hf. cbn [obind].
+  apply dec_obj_enc. exact Ho.
+Qed.
+End Text.
